@@ -516,12 +516,13 @@ func GenAdmissionScenario(t *rapid.T, st *Stats, full bool) (*Scenario, admitInf
 // C14 / C15: snapshots, holder payouts, developer rewards, one-time adjustments
 
 type stakeInfo struct {
-	Snapshots int  `json:"snapshots"`
-	Paid      int  `json:"paid_addresses"`
-	MinBinds  int  `json:"min_binds"`
-	OverCap   bool `json:"over_cap"`
-	ZeroRate  bool `json:"zero_rate_asset"`
-	Unrated   bool `json:"unrated_snapshot"`
+	Snapshots  int  `json:"snapshots"`
+	Paid       int  `json:"paid_addresses"`
+	MinBinds   int  `json:"min_binds"`
+	OverCap    bool `json:"over_cap"`
+	ZeroRate   bool `json:"zero_rate_asset"`
+	Unrated    bool `json:"unrated_snapshot"`
+	PrevGraded int  `json:"graded_block_right_before_snapshot"`
 }
 
 // GenStakingScenario: 2.0.2+ chain crossing 2-3 snapshot heights with balance
@@ -581,10 +582,18 @@ func GenStakingScenario(t *rapid.T, st *Stats) (*Scenario, stakeInfo) {
 			}
 			w.Commit(b)
 		}
+		// the block right before the snapshot is graded half of the time, with prices that moved:
+		// "the most recent earlier rates" of an ungraded snapshot block are then those of h-1
+		if w.H() <= snapH-1 && rapid.Bool().Draw(t, "gradePrev") {
+			w.SkipTo(snapH - 1)
+			w.JitterPrices(40)
+			w.Commit(&Block{OPR: grade()})
+			info.PrevGraded++
+		}
 		w.SkipTo(snapH)
 		b := &Block{}
 		switch rapid.IntRange(0, 5).Draw(t, "snapKind") {
-		case 0: // snapshot height without rates: most recent earlier rates are used
+		case 0, 2: // snapshot height without rates: most recent earlier rates are used
 			info.Unrated = true
 		case 1: // an asset is zeroed by the band rule at the snapshot block
 			if len(w.TopStakers()) >= 25 {
